@@ -1,17 +1,50 @@
 import TwistedModel.Http.ChannelWire
+import TwistedModel.Http.Rfc9112Request
 /-!
 Driver glue for C19 (encoding: `Http/ChannelWire.lean`).
-  `C19 run <script> <ops>` → `closed=<0|1> paused=<0|1> raised=<Class|-> written=<hex> reqs=<request>;…|none`
-      the connection of `Http/Channel.lean` with the scripted site application, after the events `ops`
+  `C19 run <script> <ops>` → `closed=<0|1> paused=<0|1> raised=<Class|-> written=<hex> reqs=<request>;…|none ref=<message>;…|none stop=<verdict>`
+      the connection of `Http/Channel.lean` with the scripted site application, after the events `ops`;
+      then the verdict of the reference parser `Http/Rfc9112Request.lean` on the concatenation of the deliveries:
+      message = `<method>/<target>/<version>/<name>=<value>|…/<body>@<start>+<stop>` (hex; `.` = no field),
+      verdict = `done` | `more` | `may` | `bad:<class>`
 -/
 namespace Twisted.Drv.C19
 open Twisted.Http.Channel Twisted.Http.ChannelWire
+open Twisted.Http (Rfc9112Request.Msg Rfc9112Request.Stop Rfc9112Request.BadKey Rfc9112Request.parseStream)
+
+def badName : Rfc9112Request.BadKey → String
+  | .requestLine => "request-line" | .method => "method" | .targetByte => "target-byte" | .version => "version"
+  | .fieldLine => "field-line" | .fieldName => "field-name" | .fieldValueNul => "field-value-nul"
+  | .clTe => "cl+te" | .teIdentity => "te-identity" | .teRepeated => "te-repeated" | .teUnsupported => "te-unsupported"
+  | .clRepeated => "cl-repeated" | .clNonnumeric => "cl-nonnumeric" | .clDigits => "cl-digits"
+  | .chunkSize => "chunk-size" | .chunkExt => "chunk-ext" | .chunkCrlf => "chunk-crlf"
+
+def stopName : Rfc9112Request.Stop → String
+  | .bad k => "bad:" ++ badName k
+  | .may => "may"
+  | .more => "more"
+  | .done => "done"
+
+def encMsg (m : Rfc9112Request.Msg) : String :=
+  encHex m.method ++ "/" ++ encHex m.target ++ "/" ++ encHex m.version ++ "/" ++
+    (if m.headers.isEmpty then "." else "|".intercalate (m.headers.map fun h => encHex h.1 ++ "=" ++ encHex h.2)) ++
+    "/" ++ encHex m.body ++ "@" ++ toString m.start ++ "+" ++ toString m.stop
+
+def encRef (r : List Rfc9112Request.Msg × Rfc9112Request.Stop) : String :=
+  "ref=" ++ (if r.1.isEmpty then "none" else ";".intercalate (r.1.map encMsg)) ++ " stop=" ++ stopName r.2
+
+/-- the bytes of the deliveries, in order -/
+def streamOf (ops : List Op) : List UInt8 :=
+  (ops.map fun (o : Op) => match o with
+    | .data b => b
+    | _ => []).flatten
 
 def handle (args : List String) : String :=
   match args with
   | ["run", sc, ops] =>
     match decScript sc, decOps ops with
-    | some script, some ops => encState (runOps (siteApp script) init ops)
+    | some script, some ops =>
+      encState (runOps (siteApp script) init ops) ++ " " ++ encRef (Rfc9112Request.parseStream (streamOf ops))
     | _, _ => "bad-op"
   | _ => "bad-op"
 
